@@ -102,19 +102,19 @@ static void scn_batch(int mode, obs_t* o) {
     o->hash = h; carquet_reader_close(rd);
 }
 
-enum { K_SCHEMA, K_WRITE, K_READ, K_BATCH, K_DICTREAD, K_WIDE };
+enum { K_SCHEMA, K_WRITE, K_READ, K_BATCH, K_DICTREAD, K_WIDE, K_DICTBATCH };
 typedef struct { int kind, a, b; const char* name; } scn_t;
 static int g_dict_pt[2] = { PT_BYTE_ARRAY, PT_INT64 }, g_dict_tl[2] = { 0, 0 };
 static void run_scenario(const scn_t* s, obs_t* o) {
     memset(o, 0, sizeof *o); int pt[3], tl[3]; for (int c = 0; c < 3; c++) { pt[c] = g_hist.cols[c].ptype; tl[c] = g_hist.cols[c].tlen; }
     mcf_on();
-    switch (s->kind) { case K_SCHEMA: scn_schema(o); break; case K_WRITE: scn_write(s->a, o); break; case K_READ: scn_read(s->a, 3, pt, tl, o); break; case K_BATCH: scn_batch(s->a, o); break; case K_WIDE: scn_write_wide(s->a, o); break; default: scn_read(s->a, 2, g_dict_pt, g_dict_tl, o); break; }
+    switch (s->kind) { case K_SCHEMA: scn_schema(o); break; case K_WRITE: scn_write(s->a, o); break; case K_READ: scn_read(s->a, 3, pt, tl, o); break; case K_BATCH: scn_batch(s->a, o); break; case K_WIDE: scn_write_wide(s->a, o); break; case K_DICTBATCH: scn_batch(s->a, o); break; default: scn_read(s->a, 2, g_dict_pt, g_dict_tl, o); break; }
     mcf_off();
 }
 static void prepare_input(const scn_t* s) {
     free(g_file); g_file = NULL;
     if (s->kind == K_READ || s->kind == K_BATCH) { table_hist(s->b, &g_hist); carquet_status_t st; const char* where; if (tbl_write(&g_hist, &g_file, &g_file_n, &st, &where)) mc_harness_error("cannot write input file"); }
-    else if (s->kind == K_DICTREAD) { rfile_t f; memset(&f, 0, sizeof f); f.ncols = 2; f.N = 7; f.nrg = 2; f.codec = s->b; f.crc = true; f.dict_offset_present = true; f.col[0].ptype = PT_BYTE_ARRAY; f.col[0].opt = 1; f.mask[0] = 0x24; f.enc[0] = ENC_RLE_DICT; f.npages[0] = 2; f.page_levels[0][0] = 3; f.page_levels[0][1] = 4; f.col[1].ptype = PT_INT64; f.enc[1] = ENC_PLAIN_DICT;
+    else if (s->kind == K_DICTREAD || s->kind == K_DICTBATCH) { rfile_t f; memset(&f, 0, sizeof f); f.ncols = 2; f.N = 7; f.nrg = 2; f.codec = s->b; f.crc = true; f.dict_offset_present = true; f.col[0].ptype = PT_BYTE_ARRAY; f.col[0].opt = 1; f.mask[0] = 0x24; f.enc[0] = ENC_RLE_DICT; f.npages[0] = 2; f.page_levels[0][0] = 3; f.page_levels[0][1] = 4; f.col[1].ptype = PT_INT64; f.enc[1] = ENC_PLAIN_DICT;
         memset(&g_hist, 0, sizeof g_hist); g_hist.cols[0].ptype = PT_BYTE_ARRAY; g_hist.cols[0].opt = 1; g_hist.cols[1].ptype = PT_INT64;
         ref_buf img; ref_buf_init(&img); static ref_coldata cols[8]; int np; if (rf_build(&RA, &f, &img, NULL, 0, &np, cols)) mc_harness_error("reference writer failed"); g_file = mc_exact(img.p, img.n); g_file_n = img.n; ref_buf_free(&img); ref_arena_free(&RA); }
     if (g_file) { FILE* fp = fopen(g_path, "wb"); if (!fp || fwrite(g_file, 1, g_file_n, fp) != g_file_n) mc_harness_error("scratch write failed"); fclose(fp); }
@@ -132,7 +132,7 @@ static void judge(const scn_t* s, long k1, long k2, const obs_t* base, long base
 }
 
 static void enumerate(void) {
-    mc_rule("C19: scenarios = schema build (70 columns), write of a 3-row-group, 3-column nullable table per codec (5) and of a 9-row-group table, write of a 100-column table whose footer grows the Thrift output buffer twice (16 name paddings so that every kind of append crosses the growth point), open + full column read per I/O mode (3) x codec (5), batch read per I/O mode x 2 codecs, dictionary-encoded file read per I/O mode x 2 codecs. "
+    mc_rule("C19: scenarios = schema build (70 columns), write of a 3-row-group, 3-column nullable table per codec (5) and of a 9-row-group table, write of a 100-column table whose footer grows the Thrift output buffer twice (16 name paddings so that every kind of append crosses the growth point), open + full column read per I/O mode (3) x codec (5), batch read per I/O mode x 2 codecs, dictionary-encoded file read through the column reader and through the batch reader per I/O mode x 2 codecs. "
             "K = allocation requests the library (and zlib/zstd on its behalf) makes in the fault-free run; every k in 1..K fails once (quick and thorough); all pairs k1<k2 for the scenarios with K <= 100 (quick) / all scenarios (thorough). Oracle: no crash / ASan report (child process), "
             "all handles are then closed/freed, the number of live library allocations afterwards does not exceed the fault-free steady state, and either some call reported an error or the result (file bytes / values read) is identical to the fault-free run. "
             "One mc case per (scenario, k); evaluations = fault points. Non-trivial = every fault point that was reached; distinct by (scenario, k1, k2).");
@@ -145,6 +145,7 @@ static void enumerate(void) {
     for (int m = 0; m < 3; m++) for (int c = 0; c < 5; c++) { snprintf(names[ns], 48, "read.%s.%s", MN[m], CN[c]); S[ns] = (scn_t){ K_READ, m, CD[c], names[ns] }; ns++; }
     for (int m = 0; m < 3; m++) for (int c = 0; c < 5; c += 4) { snprintf(names[ns], 48, "batch.%s.%s", MN[m], CN[c]); S[ns] = (scn_t){ K_BATCH, m, CD[c], names[ns] }; ns++; }
     for (int m = 0; m < 3; m++) for (int c = 0; c < 2; c++) { snprintf(names[ns], 48, "dict-read.%s.%s", MN[m], c ? "snappy" : "uncompressed"); S[ns] = (scn_t){ K_DICTREAD, m, c ? CODEC_SNAPPY : CODEC_NONE, names[ns] }; ns++; }
+    for (int m = 0; m < 3; m++) for (int c = 0; c < 2; c++) { snprintf(names[ns], 48, "dict-batch.%s.%s", MN[m], c ? "snappy" : "uncompressed"); S[ns] = (scn_t){ K_DICTBATCH, m, c ? CODEC_SNAPPY : CODEC_NONE, names[ns] }; ns++; }
     /* warm caches that live for the whole process (zstd contexts, lazily built tables) */
     { (void)carquet_init(); scn_t w = { K_READ, 0, 6, "warm" }; prepare_input(&w); obs_t o; mcf_reset(); run_scenario(&w, &o); scn_t w2 = { K_WRITE, 6, 0, "warm" }; run_scenario(&w2, &o); scn_t w3 = { K_WRITE, 2, 0, "warm" }; run_scenario(&w3, &o); }
     mc_stage("single-fault.every-request");
